@@ -5,15 +5,15 @@
    every iteration returned, and which loaded blocks overlapped each querier when it began.
 
    Wire format: all numbers are primitive 63-bit integer literals; timestamps carry the offset
-   2^62 (values beyond +-2^61, i.e. the MaxInt64 / MinInt64 "unset" sentinels, are clamped by the
-   harness); samples are referred to by their index in the case's sample table. *)
+   2^20 (values beyond +-2^19, i.e. the MaxInt64 / MinInt64 "unset" sentinels, are clamped by the
+   harness; generated timestamps stay within +-10^4); samples are referred to by their index in the case's sample table. *)
 From Coq Require Import List ZArith Bool Uint63.
 From Verif Require Import model.CompactRace.
 Import ListNotations.
 Open Scope Z_scope.
 
 Definition zi (n : int) : Z := Uint63.to_Z n.
-Definition zt (n : int) : Z := Uint63.to_Z n - 4611686018427387904.
+Definition zt (n : int) : Z := Uint63.to_Z n - 1048576.
 
 Record case := mkCase {
   c_id : Z;
@@ -37,18 +37,22 @@ Fixpoint unruns (l : list int) : list nat :=
   | s :: n :: r => seq (Z.to_nat (zi s)) (Z.to_nat (zi n)) ++ unruns r
   | _ => []
   end.
-Definition looks (tb : list sample) (l : list int) : list sample := map (look tb) (unruns l).
 
-(* raw wire records (monomorphic constructors: cheap to elaborate) *)
+(* raw wire records (monomorphic constructors, including the integer lists: elaborating a
+   polymorphic list literal costs milliseconds per bracket) *)
+Inductive il := N_ | C_ (x : int) (r : il).
+Fixpoint il_list (l : il) : list int := match l with N_ => [] | C_ x r => x :: il_list r end.
 Inductive rsample := RS (s t v : int).
-Inductive rblock := RB (id lo hi : int) (l : list int).
-Inductive rchunk := RC (ref : int) (l : list int).
-Inductive revent := RE (tag : int) (a t : list int).
-Inductive rout := RO (q : int) (l : list int).
+Inductive rblock := RB (id lo hi : int) (l : il).
+Inductive rchunk := RC (ref : int) (l : il).
+Inductive revent := RE (tag : int) (a t : il).
+Inductive rout := RO (q : int) (l : il).
+
+Definition looks (tb : list sample) (l : il) : list sample := map (look tb) (unruns (il_list l)).
 
 Definition dec_ev (e : revent) : option ev :=
   let '(RE tag a t) := e in
-  match zi tag, map zi a, map zt t with
+  match zi tag, map zi (il_list a), map zt (il_list t) with
   | 0, [has; id], [mint; maxt] => Some (EHWritten (if has =? 1 then Some id else None) mint maxt)
   | 1, [], [] => Some ESwapped
   | 2, [id], [] => Some (EBlockClosing id)
@@ -83,7 +87,7 @@ Definition dec_ev (e : revent) : option ev :=
   end.
 
 Definition wCase (id : int) (nacked : int) (table : list rsample)
-    (headino : list int) (headmint : int) (ooo : list rchunk) (ooomint ooomaxt : int)
+    (headino : il) (headmint : int) (ooo : list rchunk) (ooomint ooomaxt : int)
     (blocks : list rblock) (gcref : int)
     (trace : list revent) (outs : list rout) (held : list rout)
     (completed problems : int) : case :=
@@ -96,7 +100,7 @@ Definition wCase (id : int) (nacked : int) (table : list rsample)
                  [] [] [] 0 false (zi gcref) Idle [] [] [] [] false in
   mkCase (zi id) (firstn (Z.to_nat (zi nacked)) tb) s0 (map dec_ev trace)
          (map (fun o => let '(RO q l) := o in (zi q, looks tb l)) outs)
-         (map (fun h => let '(RO q l) := h in (zi q, map zi l)) held)
+         (map (fun h => let '(RO q l) := h in (zi q, map zi (il_list l))) held)
          (zi completed =? 1) (zi problems).
 
 Fixpoint sequence {A} (l : list (option A)) : option (list A) :=
